@@ -91,3 +91,41 @@ class C07y_scrub_binding_2(Contract):
 
     def raises(self, binding, site):
         return {}
+
+
+class C07y_scrub_binding_1(Contract):
+    target = 'fpy2.transform.dead_code:_Eliminator._scrub_binding'
+    params = {'self': '_Eliminator', 'binding': 'TupleBinding', 'site': 'Key[DefSite]'}
+    overrides = {'self.def_use': 'DUModelY', 'binding.elts': 'tuple[Key[Target]]'}
+    returns = 'TupleBinding'
+    properties = ['C07']
+    options = {'key_attrs': 'spec.c07:KEY_ATTRS', 'feas_ms': 40, 'refute_universe': {'Definition': 3, 'UseSite': 2}}
+    note = 'binding of 1 element; see C07y_scrub_binding_2'
+
+    def axioms(self, binding, site):
+        return dict(_site_defs_known(self.def_use, binding, site), live_def=live_def(self.def_use))
+
+    def post(self, binding, site, result):
+        return _scrub_post(self, binding, site, result)
+
+    def raises(self, binding, site):
+        return {}
+
+
+class C07y_scrub_binding_3(Contract):
+    target = 'fpy2.transform.dead_code:_Eliminator._scrub_binding'
+    params = {'self': '_Eliminator', 'binding': 'TupleBinding', 'site': 'Key[DefSite]'}
+    overrides = {'self.def_use': 'DUModelY', 'binding.elts': 'tuple[Key[Target], Key[Target], Key[Target]]'}
+    returns = 'TupleBinding'
+    properties = ['C07']
+    options = {'key_attrs': 'spec.c07:KEY_ATTRS', 'feas_ms': 40, 'refute_universe': {'Definition': 3, 'UseSite': 2}}
+    note = 'binding of 3 elements; see C07y_scrub_binding_2'
+
+    def axioms(self, binding, site):
+        return dict(_site_defs_known(self.def_use, binding, site), live_def=live_def(self.def_use))
+
+    def post(self, binding, site, result):
+        return _scrub_post(self, binding, site, result)
+
+    def raises(self, binding, site):
+        return {}
